@@ -20,12 +20,20 @@
         was delivered); after the handshake the client sends A1 A2 A3 and the server B1 B2 (one
         datagram each).  r<i>@<j>: captured record i is delivered once more, alone in a datagram,
         right after emitted datagram j was handled; d<i>@<j>: same for whole datagram i.
-        <pmtu> may be <pmtu>/<suite hex> (default suite c02f); a peer whose API call fails is closed
+        <pmtu> may be <pmtu>/<suite hex>[/<mode>] (default suite c02f); mode letters: r = resumed handshake
+        (a clean full handshake fills a sslSessionId_t first, the scheduled handshake then resumes it),
+        a = client authentication (server has a certificate callback, client presents the RSA-2048
+        identity); a peer whose API call fails is closed
         (dead), as an application would do; a peer with nothing pending that received nothing since
         its last turn takes a timeout (flight resend through matrixDtlsGetOutdata).
         -> "hs=<S><C> rounds=<n> S=<app data delivered to server> C=<...> err=<S><C> dead=<S><C> ndg=<n>
             nrec=<n> injacc=<n> injchg=<n>"   (injacc: injected records the replay window accepted;
             injchg: injected datagrams after which hsState/error flags/delivered data differ)
+            why=<peer><api><rc>/<ssl->err> for the first failing API call (G GetOutdata, R ReceivedData,
+            S SentData; "-" if none), res=<S><C> SSL_FLAGS_RESUMED, ca=<S> SSL_FLAGS_CLIENT_AUTH
+   sizes <pmtu[/suite[/mode]]>
+        clean schedule; -> "sizes hs=<S><C> <to>:<dgram>:<rectype>.<hstype or ->.<epoch>.<total record bytes> ..."
+        for every record emitted during the handshake (hstype readable on epoch 0 only)
 */
 #define WRAP_TIME
 #include "matrixssl/matrixsslImpl.h"
@@ -78,16 +86,22 @@ static int g_injacc, g_injchg, g_fail;
 static int dead[2]; static int g_trace;
 static int sent_any[2], got_this_round[2], want_send[2];
 
-static int g_cipher = 0xC02F;
+static int g_cipher = 0xC02F, g_mode_r, g_mode_a;
+static char g_why[32];
 static int32 certCb(ssl_t *ssl, psX509Cert_t *cert, int32 alert) { return 0; }
+static void note_fail(int who, char api, int rc)
+{
+    if (!g_why[0]) snprintf(g_why, sizeof(g_why), "%c%c%d/%d", who ? 'C' : 'S', api, rc, (int) peer[who]->err);
+}
 
-static int new_pair(void)
+static int new_pair(sslSessionId_t *sid)
 {
     sslSessOpts_t opts; psCipher16_t cs[1] = { (psCipher16_t) g_cipher };
     memset(&opts, 0, sizeof(opts)); opts.versionFlag = SSL_FLAGS_DTLS | SSL_FLAGS_TLS_1_2;
-    if (matrixSslNewClientSession(&peer[1], g_keys, NULL, cs, 1, certCb, NULL, NULL, NULL, &opts) != MATRIXSSL_REQUEST_SEND) return -1;
+    if (matrixSslNewClientSession(&peer[1], g_keys, sid, cs, 1, certCb, NULL, NULL, NULL, &opts) != MATRIXSSL_REQUEST_SEND) return -1;
     memset(&opts, 0, sizeof(opts)); opts.versionFlag = SSL_FLAGS_DTLS | SSL_FLAGS_TLS_1_2;
-    if (matrixSslNewServerSession(&peer[0], g_keys, NULL, &opts) < 0) return -1;
+    if (matrixSslNewServerSession(&peer[0], g_keys, g_mode_a ? certCb : NULL, &opts) < 0) { matrixSslDeleteSession(peer[1]); return -1; }
+    g_why[0] = 0;
     hsdone[0] = hsdone[1] = 0; applog[0][0] = applog[1][0] = 0; dead[0] = dead[1] = 0; sent_any[0] = sent_any[1] = 0; got_this_round[0] = got_this_round[1] = 0; sent_any[1] = 1; want_send[0] = want_send[1] = 0;
     return 0;
 }
@@ -125,7 +139,7 @@ static int deliver(int who, const unsigned char *b, int len)
         }
         break;
     }
-    if (rc < 0) dead[who] = 1;      /* an application closes the session on an error return */
+    if (rc < 0) { dead[who] = 1; note_fail(who, 'R', rc); }     /* an application closes the session on an error return */
     if (rc == MATRIXSSL_REQUEST_SEND) want_send[who] = 1;
     return rc;
 }
@@ -139,7 +153,7 @@ static void flush_out(int who)
     int to = 1 - who;
     while (!dead[who] && ndg < MAXCAP - 1) {
         len = matrixDtlsGetOutdata(peer[who], &buf);
-        if (len < 0) { dead[who] = 1; if (g_trace) fprintf(stderr, "%c GetOutdata rc=%d err=%d\n", who ? 'C' : 'S', len, peer[who]->err); }
+        if (len < 0) { dead[who] = 1; note_fail(who, 'G', len); if (g_trace) fprintf(stderr, "%c GetOutdata rc=%d err=%d\n", who ? 'C' : 'S', len, peer[who]->err); }
         if (len <= 0) break;
         int idx = ndg++;
         dg[idx].b = malloc(len); memcpy(dg[idx].b, buf, len); dg[idx].len = len; dg[idx].to = to;
@@ -155,7 +169,7 @@ static void flush_out(int who)
             for (int off = 0; off + 13 <= len; off += 13 + ((dg[idx].b[off + 11] << 8) | dg[idx].b[off + 12]))
                 fprintf(stderr, " [t%d e%d s%d]", dg[idx].b[off], dg[idx].b[off + 4], dg[idx].b[off + 10]);
             fprintf(stderr, " fate=%c rc=%d\n", idx < g_nfates ? g_fates[idx] : '.', rc); }
-        if (rc < 0) dead[who] = 1;
+        if (rc < 0) { dead[who] = 1; note_fail(who, 'S', rc); }
         if (rc == MATRIXSSL_HANDSHAKE_COMPLETE) hsdone[who] = 1;
         char f = idx < g_nfates ? g_fates[idx] : '.';
         if (f == 'h') {
@@ -201,7 +215,16 @@ static void send_app(int who, const char *msg)
    (records that skip the window in the unrepaired code are not counted; the delivered-data
    observation covers them) */
 
+static int run_handshake(int maxrounds);
 static int run_live(int maxrounds)
+{
+    int rounds = run_handshake(maxrounds);
+    if (hsdone[0] && hsdone[1]) {
+        send_app(1, "A1"); send_app(0, "B1"); send_app(1, "A2"); send_app(1, "A3"); send_app(0, "B2");
+    }
+    return rounds;
+}
+static int run_handshake(int maxrounds)
 {
     int rounds = 0;
     held[0] = held[1] = -1;
@@ -213,10 +236,41 @@ static int run_live(int maxrounds)
             else got_this_round[who] = 0;
         }
     }
-    if (hsdone[0] && hsdone[1]) {
-        send_app(1, "A1"); send_app(0, "B1"); send_app(1, "A2"); send_app(1, "A3"); send_app(0, "B2");
-    }
     return rounds;
+}
+
+/* "<pmtu>[/<suite>[/<mode>]]" */
+static int parse_cfg(char *t, int default_pmtu)
+{
+    int pmtu = atoi(t);
+    char *sl = strchr(t, '/');
+    g_cipher = 0xC02F; g_mode_r = g_mode_a = 0;
+    if (sl) {
+        if (sl[1] && sl[1] != '/') g_cipher = (int) strtol(sl + 1, NULL, 16);
+        char *m = strchr(sl + 1, '/');
+        if (m) { g_mode_r = strchr(m + 1, 'r') != NULL; g_mode_a = strchr(m + 1, 'a') != NULL; }
+    }
+    matrixDtlsSetPmtu(pmtu > 0 ? pmtu : default_pmtu);
+    return pmtu;
+}
+
+/* a clean full handshake that leaves a resumable session in *sid (and in the server's cache) */
+static int prime_session(sslSessionId_t **sid)
+{
+    const char *f = g_fates; int nf = g_nfates, ni = ninj, ok;
+    int pm = matrixDtlsGetPmtu();
+    if (matrixSslNewSessionId(sid, NULL) < 0) return -1;
+    g_fates = ""; g_nfates = 0; ninj = 0;
+    matrixDtlsSetPmtu(-1);                 /* the priming handshake runs unfragmented */
+    if (new_pair(*sid) < 0) { g_fates = f; g_nfates = nf; ninj = ni; matrixDtlsSetPmtu(pm); return -1; }
+    run_handshake(12);
+    ok = hsdone[0] && hsdone[1] && !dead[0] && !dead[1];
+    if (!dead[0]) matrixSslDeleteSession(peer[0]);
+    if (!dead[1]) matrixSslDeleteSession(peer[1]);
+    free_caps();
+    g_fates = f; g_nfates = nf; ninj = ni;
+    matrixDtlsSetPmtu(pm);
+    return ok ? 0 : -1;
 }
 
 /* ------------------------------------------------------------------ main */
@@ -231,7 +285,7 @@ int main(void)
     /* base pair for the w / g operations: one real handshake */
     ssl_t *base[2] = { NULL, NULL };
     g_fates = ""; g_nfates = 0; ninj = 0;
-    if (new_pair() < 0) { printf("SESSFAIL\n"); return 2; }
+    if (new_pair(NULL) < 0) { printf("SESSFAIL\n"); return 2; }
     run_live(12);
     if (!(hsdone[0] && hsdone[1])) { printf("BASEHSFAIL\n"); return 2; }
     base[0] = peer[0]; base[1] = peer[1];
@@ -282,20 +336,23 @@ int main(void)
             s->hsState = SSL_HS_DONE;
             put_state(s, 1);
         } else if (g_ntok >= 3 && strcmp(g_tok[0], "live") == 0) {
-            int pmtu = atoi(g_tok[1]);
-            if (strchr(g_tok[1], '/')) g_cipher = (int) strtol(strchr(g_tok[1], '/') + 1, NULL, 16); else g_cipher = 0xC02F;
-            matrixDtlsSetPmtu(pmtu > 0 ? pmtu : default_pmtu);
+            sslSessionId_t *sid = NULL;
+            parse_cfg(g_tok[1], default_pmtu);
             g_fates = strcmp(g_tok[2], "-") == 0 ? "" : g_tok[2]; g_nfates = (int) strlen(g_fates);
             ninj = 0; g_injacc = g_injchg = g_fail = 0;
             for (int k = 3; k < g_ntok && ninj < 64; k++) {
                 int i, j; char c;
                 if (sscanf(g_tok[k], "%c%d@%d", &c, &i, &j) == 3 && (c == 'r' || c == 'd')) { inj[ninj].isrec = c == 'r'; inj[ninj].i = i; inj[ninj].j = j; ninj++; }
             }
-            if (new_pair() < 0) { printf("SESSFAIL\n"); continue; }
+            if (g_mode_r && prime_session(&sid) < 0) { printf("PRIMEFAIL\n"); if (sid) matrixSslDeleteSessionId(sid); matrixDtlsSetPmtu(default_pmtu); continue; }
+            g_injacc = g_injchg = 0;
+            if (new_pair(sid) < 0) { printf("SESSFAIL\n"); if (sid) matrixSslDeleteSessionId(sid); matrixDtlsSetPmtu(default_pmtu); continue; }
             int rounds = run_live(40);
-            printf("hs=%d%d rounds=%d S=%s C=%s err=%d%d dead=%d%d ndg=%d nrec=%d injacc=%d injchg=%d%s\n", hsdone[0], hsdone[1], rounds,
+            printf("hs=%d%d rounds=%d S=%s C=%s err=%d%d dead=%d%d ndg=%d nrec=%d injacc=%d injchg=%d why=%s res=%d%d ca=%d%s\n", hsdone[0], hsdone[1], rounds,
                 applog[0][0] ? applog[0] : "-", applog[1][0] ? applog[1] : "-",
-                !!(peer[0]->flags & SSL_FLAGS_ERROR), !!(peer[1]->flags & SSL_FLAGS_ERROR), dead[0], dead[1], ndg, nrec, g_injacc, g_injchg, g_fail ? " HARNESSFAIL" : "");
+                !!(peer[0]->flags & SSL_FLAGS_ERROR), !!(peer[1]->flags & SSL_FLAGS_ERROR), dead[0], dead[1], ndg, nrec, g_injacc, g_injchg,
+                g_why[0] ? g_why : "-", !!(peer[0]->flags & SSL_FLAGS_RESUMED), !!(peer[1]->flags & SSL_FLAGS_RESUMED),
+                !!(peer[0]->flags & SSL_FLAGS_CLIENT_AUTH), g_fail ? " HARNESSFAIL" : "");
             if (getenv("C16_DUMP")) {
                 for (int i = 0; i < nrec; i++)
                     fprintf(stderr, "rec %d to=%c t%d e%d s%d len=%d\n", i, rec[i].to ? 'C' : 'S', rec[i].b[0], (rec[i].b[3] << 8) | rec[i].b[4],
@@ -304,6 +361,28 @@ int main(void)
             /* a session whose flight resend failed holds a dangling outbuf (reported separately): leak it */
             if (!dead[0]) matrixSslDeleteSession(peer[0]);
             if (!dead[1]) matrixSslDeleteSession(peer[1]);
+            if (sid) matrixSslDeleteSessionId(sid);
+            free_caps();
+            matrixDtlsSetPmtu(default_pmtu);
+        } else if (g_ntok == 2 && strcmp(g_tok[0], "sizes") == 0) {
+            sslSessionId_t *sid = NULL;
+            parse_cfg(g_tok[1], default_pmtu);
+            g_fates = ""; g_nfates = 0; ninj = 0; g_fail = 0;
+            if (g_mode_r && prime_session(&sid) < 0) { printf("PRIMEFAIL\n"); if (sid) matrixSslDeleteSessionId(sid); matrixDtlsSetPmtu(default_pmtu); continue; }
+            if (new_pair(sid) < 0) { printf("SESSFAIL\n"); if (sid) matrixSslDeleteSessionId(sid); matrixDtlsSetPmtu(default_pmtu); continue; }
+            run_handshake(12);
+            printf("sizes hs=%d%d why=%s", hsdone[0], hsdone[1], g_why[0] ? g_why : "-");
+            for (int d = 0, r = 0; d < ndg; d++)
+                for (int off = 0; off + 13 <= dg[d].len && r < nrec; r++) {
+                    unsigned char *b = dg[d].b + off; int rl = 13 + ((b[11] << 8) | b[12]); int ep = (b[3] << 8) | b[4];
+                    if (b[0] == 22 && ep == 0) printf(" %c:%d:%d.%d.%d.%d", dg[d].to ? 'C' : 'S', d, b[0], b[13], ep, rl);
+                    else printf(" %c:%d:%d.-.%d.%d", dg[d].to ? 'C' : 'S', d, b[0], ep, rl);
+                    off += rl;
+                }
+            printf("\n");
+            if (!dead[0]) matrixSslDeleteSession(peer[0]);
+            if (!dead[1]) matrixSslDeleteSession(peer[1]);
+            if (sid) matrixSslDeleteSessionId(sid);
             free_caps();
             matrixDtlsSetPmtu(default_pmtu);
         } else printf("BADCASE\n");
